@@ -13,6 +13,15 @@ def run(tier="quick", seed=0):
     viol, ev, distinct = [], 0, 0
     maxd = 26 if tier == "quick" else 60
     samples = []
+    # enumerations begun and ABANDONED (a caller that stops at the first Ethernet chip it likes), and two enumerations advanced in
+    # turn: the complete enumerations below - of these machines among all others - must not be affected
+    for (w0, h0, rx0, ry0) in ((24, 24, 0, 0), (20, 16, 8, 4), (13, 25, 4, 8), (26, 26, 11, 11), (12, 12, 0, 0), (25, 14, 3, 0)):
+        it = g.spinn5_eth_coords(w0, h0, rx0, ry0)
+        next(it, None)
+        del it
+        a_, b_ = g.spinn5_eth_coords(w0, h0, rx0, ry0), g.spinn5_eth_coords(h0, w0, ry0, rx0)
+        next(a_, None), next(b_, None), next(a_, None)
+        ev += 2
     for w in range(1, maxd + 1):
         for h in range(1, maxd + 1):
             for rx in range(12):
